@@ -279,8 +279,11 @@ def faithful_entry(chk, doc, fed, preserve, ctx):
                                            "parameter_location": n(d.parameter_location)}, (doc.get("phase") or {}).get("data"))
 
 
+STATUS_JUNK = re.compile(r"""  status: (['"])[A-Z]+\1null""")
+
+
 def classify_bad_line(line: str):
-    if re.fullmatch(r"  status: '[A-Z]+'null", line):
+    if STATUS_JUNK.fullmatch(line):
         return KF_META_NONE
     if re.match(r"\s+message: ", line):
         return KF_MSG_INVALID
@@ -314,6 +317,7 @@ def vcr_judge(chk, mechanism, recorders, feds, preserve, variant, argv=None, san
         reqs = [r for r in reqs if r[0] == "parse_doc"]
     res = drv.batch(reqs)
     step = 1 if sanitize else 2
+    pending = []
     for ri, rec in enumerate(recorders):
         text, exc = outs[ri]
         entries, undecodable = index[ri]
@@ -343,17 +347,7 @@ def vcr_judge(chk, mechanism, recorders, feds, preserve, variant, argv=None, san
         if not sanitize and ascii_titles:
             model = from_cps(res[ri * step]["text"])
             if text != model:
-                # a partial repair (some sites only) still agrees with one of the variants up to the quoting style
-                other = "repaired" if variant == "asFound" else "asFound"
-                alt = drv.batch([("vcr_doc", {"variant": v, "preserve": preserve, "command": cps(command),
-                                              "version": cps(SCHEMATHESIS_VERSION), "seed": cps("1"), "recorders": [entries]})
-                                 for v in (other, "repaired")])
-                same_tokens = False
-                if parsed["toks"] is not None:
-                    mt = drv.one("parse_doc", {"t": alt[1]["text"]})
-                    same_tokens = mt["toks"] == parsed["toks"]
-                if text != from_cps(alt[0]["text"]) and not same_tokens:
-                    chk.disagreement(mechanism, key, model, text)
+                pending.append((ri, key, model, text, parsed))
         # ---- replay: independent parser + Lean specification ---------------------------------------------------------
         try:
             tree = yaml.load(text, Loader=yaml.BaseLoader)
@@ -396,6 +390,32 @@ def vcr_judge(chk, mechanism, recorders, feds, preserve, variant, argv=None, san
                     sig = KF_HEADER_NAME
                 chk.violation(sig, f"a reader of the cassette gets {aspect} = {got!r}, the exchange had {exp!r}",
                               {**replay, "aspect": aspect, "expected": repr(exp), "got": repr(got)})
+
+
+    # ---- texts that differ from the model in the detected variant: a partial repair (some sites only) is, line by line,
+    # one of the two variants up to the quoting style; anything else is a disagreement
+    if pending:
+        reqs = []
+        for ri, key, model, text, parsed in pending:
+            for v in ("asFound", "repaired"):
+                reqs.append(("vcr_doc", {"variant": v, "preserve": preserve, "command": cps(command),
+                                         "version": cps(SCHEMATHESIS_VERSION), "seed": cps("1"), "recorders": [index[ri][0]]}))
+        alts = drv.batch(reqs)
+        rep_parsed = drv.batch([("parse_doc", {"t": alts[2 * n + 1]["text"]}) for n in range(len(pending))])
+        for n, (ri, key, model, text, parsed) in enumerate(pending):
+            a, r = from_cps(alts[2 * n]["text"]).split("\n"), from_cps(alts[2 * n + 1]["text"]).split("\n")
+            lines = text.split("\n")
+            ok = len(lines) == len(a) == len(r) == len(parsed["lines"]) == len(rep_parsed[n]["lines"])
+            if ok:
+                for ln, la, lr, ti, tr in zip(lines, a, r, parsed["lines"], rep_parsed[n]["lines"]):
+                    if not (ln == la or ln == lr or (ti is not None and ti == tr)
+                            or (STATUS_JUNK.fullmatch(ln) and STATUS_JUNK.fullmatch(la))):
+                        ok = False
+                        break
+            if not ok:
+                chk.disagreement(mechanism, key, model, text)
+            else:
+                chk.feature("vcr:text-is-a-line-wise-mix-of-the-two-variants")
 
 
 def detect_vcr_variant(chk):
@@ -659,7 +679,7 @@ def gen_history(rng, n_events, on_protocol=True):
     return hist, fails
 
 
-def realise_history(hist, fails, body=b"ok", fail_message_suffix=""):
+def realise_history(hist, fails, body=b"ok", fail_message_suffix="", encoding="utf-8"):
     """Real events for an abstract history. Returns (events, wire events for the model, case-id table)."""
     evs, wire, ids = [], [], {}
     p = W.requests.Request("GET", "http://127.0.0.1/a").prepare()
@@ -683,7 +703,7 @@ def realise_history(hist, fails, body=b"ok", fail_message_suffix=""):
                 case = W.operation(label=opl).Case()
                 rec.record_case(parent_id=None, transition=None, case=case)
                 rec.record_response(case_id=case.id, response=W.Response(
-                    status_code=500, headers={}, content=body, request=p, elapsed=0.1, verify=False, message="E", encoding="utf-8"))
+                    status_code=500, headers={}, content=body, request=p, elapsed=0.1, verify=False, message="E", encoding=encoding))
                 ids[case.id] = len(ids)
                 for c in checks:
                     if c is None:
@@ -741,16 +761,16 @@ def junit_model_observe(cases):
     return out
 
 
-def junit_judge(chk, mechanism, hists, variant, on_protocol=True, body=b"ok", suffix=""):
+def junit_judge(chk, mechanism, hists, variant, on_protocol=True, body=b"ok", suffix="", encoding="utf-8"):
     drv = chk.driver()
-    real = [realise_history(h, f, body, suffix) for h, f in hists]
+    real = [realise_history(h, f, body, suffix, encoding) for h, f in hists]
     models = drv.batch([("junit", {"variant": variant, "events": w}) for _, w, _ in real])
     with tempfile.TemporaryDirectory(prefix="c16-") as tmp:
         for (hist, fails), (evs, wire, ids), m in zip(hists, real, models):
             if "__err__" in m:
                 raise InfraError(f"model error {m}")
             ctx, h, crash, text = run_junit(tmp, evs)
-            replay = {"kind": "junit", "history": hist, "fails": fails, "body": list(body), "suffix": suffix}
+            replay = {"kind": "junit", "history": hist, "fails": fails, "body": list(body), "suffix": suffix, "encoding": encoding}
             chk.case(mechanism, key=hist, nontrivial=sum(1 for e in hist if e["kind"] == "scenario") > 1,
                      sample={"events": len(hist), "crash": None if crash is None else [crash[0], repr(crash[1])]})
             chk.feature(f"junit:{'crash' if crash else 'ok'}")
@@ -982,6 +1002,8 @@ def run(chk):
     for body, suffix in [(b"\xef\xbf\xbf", ""), (b"ok", "￾"), (b"\x00\x01\x0b ]]> <a>&amp;", "\x00"), ("é\U0001F600".encode(), "é")]:
         hists = [gen_history(rng, rng.randrange(1, 4)) for _ in range(chk.budget(20, 200))]
         junit_judge(chk, "junit:xml-characters", hists, junit_variant, body=body, suffix=suffix)
+    hists = [gen_history(rng, rng.randrange(1, 4)) for _ in range(chk.budget(20, 200))]
+    junit_judge(chk, "junit:unknown-charset", hists, junit_variant, encoding="foo")
     chk.exhaustive = False
 
 
@@ -995,7 +1017,7 @@ def replay(chk, data):
         print("impl now :", repr(impl_dq(t)))
         print("model    :", chk.driver().one("dq", {"s": cps(t)}))
     elif kind == "junit":
-        evs, wire, ids = realise_history(r["history"], [tuple(f) for f in r["fails"]], bytes(r["body"]), r["suffix"])
+        evs, wire, ids = realise_history(r["history"], [tuple(f) for f in r["fails"]], bytes(r["body"]), r["suffix"], r.get("encoding", "utf-8"))
         with tempfile.TemporaryDirectory(prefix="c16-") as tmp:
             ctx, h, crash, text = run_junit(tmp, evs)
         print("history  :", json.dumps(r["history"]))
